@@ -465,4 +465,208 @@ theorem open_consistent (cfg : Cfg) (d : Disk) (a : Abs) (h : Consistent cfg d a
       obtain ⟨o, _, rfl⟩ := hf
       simp at hfl
 
+/-! ### one commit = one appended record -/
+
+theorem replayRecs_append (s s1 : VS) (recs more : List Bytes) (h : replayRecs s recs = (s1, true)) :
+    replayRecs s (recs ++ more) = replayRecs s1 more := by
+  induction recs generalizing s with
+  | nil => simp only [replayRecs, Prod.mk.injEq] at h; simp [h.1]
+  | cons r t ih =>
+    simp only [replayRecs, List.cons_append] at h ⊢
+    cases hu : unmarshal r with
+    | none => simp [hu] at h
+    | some el =>
+      simp only [hu] at h ⊢
+      cases ha : applyEL s el with
+      | none => simp [ha] at h
+      | some s' =>
+        simp only [ha] at h ⊢
+        exact ih s' h
+
+theorem recoverVS_current {cfg : Cfg} {x : Disk} {j : Int} {vs0 : VS} (hc : x.current = some j)
+    (h : recoverVS cfg x = (vs0, true)) :
+    ∃ mf, Map.lookup x.manifests j = some mf ∧ mf.torn = false ∧
+      replayRecs (VS.init cfg.levels ((x.options.getD []).map (·.id))) mf.recs = (vs0, true) := by
+  simp only [recoverVS, hc] at h
+  cases hl : Map.lookup x.manifests j with
+  | none => simp [hl] at h
+  | some mf =>
+    simp only [hl, replay] at h
+    refine ⟨mf, rfl, ?_, ?_⟩
+    · cases ht : mf.torn with
+      | false => rfl
+      | true =>
+        simp only [ht, Bool.and_true] at h
+        split at h
+        · simp at h
+        · rename_i hne
+          simp only [Prod.ext_iff] at h
+          exact absurd h.2 hne
+    · split at h
+      · simp at h
+      · exact h
+
+/-- the table numbers a log introduces -/
+def Log.newNums : Log → List Int
+  | .newFile _ f _ _ _ => [f]
+  | .newRollupFile f _ => [f]
+  | _ => []
+
+theorem removeFrom_keys {κ : Type} [DecidableEq κ] (m : List (κ × List Int)) (k : κ) (x : Int) (y : κ)
+    (h : y ∈ Map.keys (removeFrom m k x)) : y ∈ Map.keys m := by
+  unfold removeFrom at h
+  cases hl : Map.lookup m k with
+  | none => simpa [hl] using h
+  | some xs =>
+    simp only [hl] at h
+    split at h
+    · rw [Map.keys_erase] at h
+      exact (List.mem_filter.mp h).1
+    · rw [Map.keys_upsert] at h
+      split at h
+      · exact h
+      · simp only [List.mem_append, List.mem_singleton] at h
+        rcases h with h | h
+        · exact h
+        · subst h; exact Map.mem_keys_of_lookup hl
+
+theorem nums_applyLog (v : Version) (l : Log) (y : Int) (h : y ∈ (applyLog v l).nums) :
+    y ∈ v.nums ∨ y ∈ l.newNums := by
+  simp only [Version.nums, List.mem_append, List.mem_map] at h ⊢
+  cases l with
+  | newFile lvl f mn mx sz =>
+    simp only [applyLog] at h
+    split at h
+    · rcases h with ⟨e, he, rfl⟩ | h
+      · rcases Map.mem_upsert he with rfl | he
+        · right; simp [Log.newNums]
+        · left; left; exact ⟨e, he, rfl⟩
+      · left; right; exact h
+    · left; exact h
+  | deleteFile lvl f =>
+    simp only [applyLog] at h
+    split at h
+    · rcases h with ⟨e, he, rfl⟩ | h
+      · left; left; exact ⟨e, (Map.mem_erase he).1, rfl⟩
+      · left; right; exact h
+    · left; exact h
+  | nextFileNumber n => left; exact h
+  | newRollupFile f i =>
+    simp only [applyLog] at h
+    rcases h with h | ⟨e, he, rfl⟩
+    · left; left; exact h
+    · rcases Map.mem_upsert he with rfl | he
+      · right; simp [Log.newNums]
+      · left; right; exact ⟨e, he, rfl⟩
+  | deleteRollupFile f i =>
+    simp only [applyLog] at h
+    rcases h with h | ⟨e, he, rfl⟩
+    · left; left; exact h
+    · left; right
+      have : e.1 ∈ Map.keys (removeFrom v.rollup f i) := by
+        simp only [Map.keys, List.mem_map]; exact ⟨e, he, rfl⟩
+      have := removeFrom_keys _ _ _ _ this
+      simp only [Map.keys, List.mem_map] at this
+      exact this
+  | newReferenceFile st fam f =>
+    simp only [applyLog] at h
+    left
+    split at h
+    · exact h
+    · split at h <;> exact h
+  | deleteReferenceFile st fam f => left; exact h
+  | sequence l s => left; exact h
+
+theorem nums_foldl_applyLog (v : Version) (ls : List Log) (y : Int) (h : y ∈ (ls.foldl applyLog v).nums) :
+    y ∈ v.nums ∨ y ∈ ls.flatMap Log.newNums := by
+  induction ls generalizing v with
+  | nil => left; exact h
+  | cons l t ih =>
+    simp only [List.foldl_cons] at h
+    rcases ih _ h with h | h
+    · rcases nums_applyLog v l y h with h | h
+      · left; exact h
+      · right; simp only [List.flatMap_cons, List.mem_append]; left; exact h
+    · right; simp only [List.flatMap_cons, List.mem_append]; right; exact h
+
+theorem foldl_setNumbers_snoc (s : VS) (logs : List Log) (x : Int) :
+    ((logs ++ [Log.nextFileNumber x]).foldl setNumbers s).manifestNo = x ∧
+    ((logs ++ [Log.nextFileNumber x]).foldl setNumbers s).next = x + 1 := by
+  simp [List.foldl_append, setNumbers]
+
+/-- explicit form of `applyEL` for a family edit log that ends with NextFileNumber(x) -/
+theorem applyEL_commit (s : VS) (fid : Int) (logs : List Log) (x : Int) (h1 : fid ≠ storeFamilyID)
+    (h2 : s.hasFam fid = true) :
+    applyEL s ⟨fid, logs ++ [.nextFileNumber x]⟩ =
+      some ⟨updFams s.fams fid (logs ++ [.nextFileNumber x]), x, x + 1⟩ := by
+  simp only [applyEL, h1, if_false, h2, if_true, foldl_applyLogVS]
+  have := foldl_setNumbers_snoc s logs x
+  rw [this.1, this.2]
+
+theorem flatMap_newNums_snoc (logs : List Log) (x : Int) :
+    (logs ++ [Log.nextFileNumber x]).flatMap Log.newNums = logs.flatMap Log.newNums := by
+  simp [Log.newNums]
+
+/-- (b) one commit is one appended record: appending the record of an edit log to the manifest
+CURRENT names turns a disk consistent with `vs` into a disk consistent with `applyEL vs el`. -/
+theorem commit_consistent (cfg : Cfg) (x : Disk) (info : List FamOpt) (vs vs' : VS) (R R' : Disk) (j fid : Int)
+    (logs : List Log)
+    (hc : Consistent cfg x ⟨info, vs.fams, R⟩) (hcur : x.current = some j) (hj : j < vs.next)
+    (hnums : ∀ f ∈ vs.fams, ∀ y ∈ f.ver.nums, y < vs.next) (hwf : vs.WF cfg.levels)
+    (hfid : fid ≠ storeFamilyID) (hhas : vs.hasFam fid = true)
+    (hap : applyEL vs ⟨fid, logs ++ [.nextFileNumber vs.next]⟩ = some vs')
+    (hnew : ∀ y ∈ logs.flatMap Log.newNums, y < vs.next)
+    (htab : ∀ name f, (⟨info, vs'.fams, R'⟩ : Abs).refs name f →
+      ∃ t, R'.table name f = some t ∧ t.complete = true ∧ x.table name f = some t) :
+    Consistent cfg (applyFs x (.appendRec j (marshal ⟨fid, logs ++ [.nextFileNumber vs.next]⟩))) ⟨info, vs'.fams, R'⟩ ∧
+    vs'.manifestNo = vs.next ∧ vs'.next = vs.next + 1 ∧ vs'.WF cfg.levels ∧
+    (∀ f ∈ vs'.fams, ∀ y ∈ f.ver.nums, y < vs'.next) ∧
+    vs'.fams.map (·.id) = vs.fams.map (·.id) := by
+  have hvs' : vs' = ⟨updFams vs.fams fid (logs ++ [.nextFileNumber vs.next]), vs.next, vs.next + 1⟩ := by
+    rw [applyEL_commit vs fid logs vs.next hfid hhas] at hap
+    exact (Option.some.inj hap).symm
+  have hwf' : vs'.WF cfg.levels := applyEL_wf hwf _ hap
+  have hnums' : ∀ f ∈ vs'.fams, ∀ y ∈ f.ver.nums, y < vs.next := by
+    intro f hf y hy
+    rw [hvs'] at hf
+    obtain ⟨g0, hg0, _, hv⟩ := mem_updFams hf
+    rcases hv with hv | ⟨_, hv⟩
+    · rw [hv] at hy; exact hnums g0 hg0 y hy
+    · rw [hv] at hy
+      rcases nums_foldl_applyLog _ _ _ hy with h | h
+      · exact hnums g0 hg0 y h
+      · rw [flatMap_newNums_snoc] at h; exact hnew y h
+  obtain ⟨vs0, hrec, hf0, _, _, _, _⟩ := hc.recov
+  obtain ⟨mf, hl, htorn, hrep⟩ := recoverVS_current hcur hrec
+  refine ⟨⟨?_, hc.names, ?_, ?_⟩, by rw [hvs'], by rw [hvs'], hwf', ?_, by rw [hvs']; exact updFams_ids _ _ _⟩
+  · rw [options_frame _ _ (by intro y; simp)]; exact hc.opts
+  · refine ⟨vs', ?_, rfl, hwf', by rw [hvs'], ?_, ?_⟩
+    · have hl' : Map.lookup (applyFs x (.appendRec j (marshal ⟨fid, logs ++ [.nextFileNumber vs.next]⟩))).manifests j
+          = some { mf with recs := mf.recs ++ [marshal ⟨fid, logs ++ [.nextFileNumber vs.next]⟩] } := by
+        simp [applyFs, hl, Map.lookup_upsert_self]
+      have ho : (applyFs x (.appendRec j (marshal ⟨fid, logs ++ [.nextFileNumber vs.next]⟩))).options = x.options :=
+        options_frame _ _ (by intro y; simp)
+      have hcu : (applyFs x (.appendRec j (marshal ⟨fid, logs ++ [.nextFileNumber vs.next]⟩))).current = some j := by
+        rw [current_frame _ _ (by simp)]; exact hcur
+      simp only [recoverVS, hcu, hl', ho, replay, htorn, Bool.and_false]
+      rw [replayRecs_append _ _ _ _ hrep]
+      have hhas0 : vs0.hasFam fid = true := by
+        rw [hasFam_iff] at hhas ⊢; rw [hf0]; exact hhas
+      simp only [replayRecs, unmarshal_marshal]
+      rw [applyEL_commit vs0 fid logs vs.next hfid hhas0, hf0, hvs']
+      simp
+    · intro f hf y hy
+      have := hnums' f hf y hy
+      rw [hvs']; simpa using this
+    · intro j' hj'
+      rw [current_frame _ _ (by simp), hcur] at hj'
+      simp only [Option.some.injEq] at hj'
+      rw [hvs']; simp only; omega
+  · intro name f hr
+    obtain ⟨t, ht⟩ := htab name f hr
+    exact ⟨t, ht.1, ht.2.1, by rw [table_frame _ _ _ _ (by simp [FsOp.touches])]; exact ht.2.2⟩
+  · intro f hf y hy
+    have := hnums' f hf y hy
+    rw [hvs']; simp only; omega
+
 end LinVerif.Kv
